@@ -52,6 +52,27 @@ Theorem C18_z_distinct_in_range : forall h : list aev,
 Proof. exact z_distinct_in_range_lemma. Qed.
 Print Assumptions C18_z_distinct_in_range.
 
+(** The same over histories in which every construction names the CLASS of the widget
+    (UrwidImage, a subclass, a subclass of a subclass, ...): the model has a SINGLE allocator
+    (one counter, one free set) for the whole class tree, as the code has (it addresses
+    them through [__class__]); so the z-indexes of ALL live kitty widgets, whatever their
+    classes, are pairwise distinct, non-zero and in range, and the class of a widget has no
+    influence on the index it gets.  (That the implementation really shares the allocator
+    between classes is checked by the correspondence, which constructs widgets of
+    UrwidImage and of three subclasses in one session.) *)
+Theorem C18_z_distinct_across_classes : forall h : list aevc,
+  (let s := hist_run_classes h in
+   NoDup (live_zs s)
+   /\ (forall z, In z (live_zs s) -> z <> 0 /\ - (zlimit - 1) <= z <= zlimit - 1)%Z
+   /\ (forall pick z a', alloc pick (h_a s) = (Some z, a') ->
+         ~ In z (live_zs s) /\ z <> 0 /\ - (zlimit - 1) <= z <= zlimit - 1)%Z
+   /\ (forall pick a', alloc pick (h_a s) = (None, a') ->
+         a' = h_a s /\ a_next (h_a s) = zlimit
+         /\ (forall z, z <> 0 -> - (zlimit - 1) <= z <= zlimit - 1 -> In z (live_zs s)))%Z)
+  /\ (forall h', map forget_class h' = map forget_class h -> hist_run_classes h' = hist_run_classes h).
+Proof. exact z_distinct_across_classes_lemma. Qed.
+Print Assumptions C18_z_distinct_across_classes.
+
 (** For every well-formed layout (bands of rectangles with spans: model/Screen.v §6), on
     Konsole or not, with any sufficient fuel for the [while] loop: the walk over the
     layout's shards returns exactly the tracked image views at the positions that the
